@@ -241,6 +241,8 @@ class Ctx:
         r.stdout = '\n'.join(tail)
         os.unlink(outp)
         self.tlc_runs.append(r.cmd)
+        if os.environ.get('VERIF_DEBUG'):
+            sys.stderr.write('[tlc %.1fs %d states] %s\n' % (r.wall, r.distinct, r.cmd))
         self.states += r.distinct
         self.transitions += r.generated
         if not expect_fail and (r.rc != 0 or r.errors):
@@ -268,24 +270,33 @@ class Ctx:
             self.mc_results.append(rec)
         return r
 
-    def validate(self, module, traces, cfg_extra='', env=None, workers=16, chunk=None,
-                 timeout=3000, heap='8g'):
+    def validate(self, module, traces, cfg_extra='', env=None, workers=None, chunk=None,
+                 timeout=3000, heap='8g', max_bytes=6000000):
         """Pipeline B. traces: list of dict records. Returns list of verdict tuples
-        (clause, rest...) aligned with traces. TLC spec must print <<"VERDICT", tid, clause, ...>>."""
+        (clause, rest...) aligned with traces. The TLC spec must print <<"VERDICT", tid, clause, ...>>.
+        Every TLC worker deserialises the trace file for itself (measured: 28 MB with 16 workers
+        took 20 s and 8 GB, 4.5 s with one), so batches are cut at ~max_bytes of JSON and the
+        worker count is lowered for big batches."""
         if not traces:
             return []
         out = [None] * len(traces)
-        chunk = chunk or len(traces)
-        for base in range(0, len(traces), chunk):
-            part = traces[base:base + chunk]
+        enc = [json.dumps(t, separators=(',', ':')) for t in traces]
+        base = 0
+        while base < len(traces):
+            size = 0
+            end = base
+            while end < len(traces) and (end == base or (size + len(enc[end]) <= max_bytes and (not chunk or end - base < chunk))):
+                size += len(enc[end]) + 1
+                end += 1
             tf = os.path.join(self.tmp, 'traces_%d.json' % len(self.tlc_runs))
             with open(tf, 'w') as f:
-                json.dump(part, f, separators=(',', ':'))
+                f.write('[' + ','.join(enc[base:end]) + ']')
+            w = workers or (16 if size < 1500000 else 8 if size < 4000000 else 4)
             cfg = ('SPECIFICATION Spec\nCONSTRAINT Report\nCHECK_DEADLOCK FALSE\n' + cfg_extra)
             e = {'TRACE_FILE': tf}
             if env:
                 e.update(env)
-            r = self.tlc(module, cfg, env=e, workers=workers, timeout=timeout, heap=heap)
+            r = self.tlc(module, cfg, env=e, workers=w, timeout=timeout, heap=heap)
             os.unlink(tf)
             for t in r.tuples:
                 if t and t[0] == 'VERDICT':
@@ -293,10 +304,11 @@ class Ctx:
                     if out[base + tid - 1] is not None and out[base + tid - 1] != t[2:]:
                         raise MachineryError('two verdicts for trace %d' % tid)
                     out[base + tid - 1] = t[2:]
-            missing = [i for i in range(base, base + len(part)) if out[i] is None]
+            missing = [i for i in range(base, end) if out[i] is None]
             if missing:
                 sys.stderr.write(r.stdout[-3000:])
                 raise MachineryError('%s: no verdict for %d traces (first %d)' % (module, len(missing), missing[0]))
+            base = end
         self.traces += len(traces)
         for v in out:
             self.clauses[v[0]] = self.clauses.get(v[0], 0) + 1
